@@ -23,7 +23,7 @@ RULE = ("seeded scalar models (1-3 nodes, 1-26 parameters so that the reserved P
         "named parameter perturbed; DFDU / DFDP vs central differences of func; non-trivial = >= 10 parameters or >= 2 nodes; "
         "distinct = distinct (spec, scenarios) hash")
 DECIDING = ['exports_checked', 'slots_checked', 'exports_crossing_reserved_range', 'perturbed_slot_evaluations', 'dfdu_entries',
-            'dfdp_entries', 'stpnt_values_checked', 'constants_files_checked']
+            'dfdp_entries', 'stpnt_values_checked', 'constants_files_checked', 'bvp_exports']
 ASSUMPTIONS = ['gfortran -fcheck=all -g -fbacktrace via FFLAGS: a Fortran run-time error aborts the case process and is reported as violation']
 CASE_TIMEOUT = 600
 WALL_BUDGET = {'quick': 1500, 'thorough': 14000}
@@ -33,7 +33,10 @@ FUNCS = ('sin', 'cos', 'tanh', 'sigmoid')
 def plan(tier, seed):
     rnd = random.Random(f'{PID}-{seed}')
     n = 20 if tier == 'quick' else 300
-    return [{'family': 'main', 'cseed': rnd.randrange(1 << 30)} for _ in range(n)]
+    cases = [{'family': 'main', 'cseed': rnd.randrange(1 << 30)} for _ in range(n)]
+    # boundary-value exports (boundary conditions / integral constraints with a parameter the vector field does not use)
+    cases += [{'family': 'bvp', 'cseed': rnd.randrange(1 << 30), 'bvp': True} for _ in range(8 if tier == 'quick' else 100)]
+    return cases
 
 
 def warmup(ctx):
@@ -45,8 +48,8 @@ def warmup(ctx):
     monitors.install()
 
 
-def gen_model(rnd, ctx):
-    n_nodes = rnd.choice([1, 1, 2, 3])
+def gen_model(rnd, ctx, single=False):
+    n_nodes = rnd.choice([1, 1, 2, 3]) if not single else 1
     target = rnd.choice([3, 8, 10, 11, 12, 16, 22, 26])
     for _ in range(300):
         vals = gen.Vals(rnd)
@@ -127,8 +130,31 @@ def fval(s):
 def run_case(case, ctx):
     rnd = random.Random(case['cseed'])
     mech = {}
-    spec = case.get('spec') or gen_model(rnd, ctx)
+    spec = case.get('spec') or gen_model(rnd, ctx, single=bool(case.get('bvp')))
     scenarios = tuple(rnd.sample(['ivp', 'eq', 'lc', 'bvp'], rnd.randint(1, 3)))
+    # boundary-value export: boundary conditions / integral constraints that use a parameter (zbc) which the vector field does not
+    # use and which is declared BEFORE the vector-field parameters of its operator (single-node models: plain variable names)
+    bvp_kw = {}
+    ref_tmp = RefModel(spec)
+    if len(ref_tmp.node_order) == 1 and (case.get('bvp') if 'bvp' in case else rnd.random() < 0.4) and 'zbc' not in str(spec['ops']):
+        import copy as _copy
+        spec = _copy.deepcopy(spec)
+        opn0 = ref_tmp.nodes[ref_tmp.node_order[0]]['ops'][0]
+        used_vals = {d[1] for o in spec['ops'].values() for d in o['vars'].values()}
+        zval = next(v for v in (0.3571, 0.4173, 0.2957, 0.6113) if v not in used_vals)
+        items = list(spec['ops'][opn0]['vars'].items())
+        pos_ins = rnd.randrange(0, max(1, len(items) // 2))
+        items.insert(pos_ins, ('zbc', ['const', zval]))
+        spec['ops'][opn0]['vars'] = dict(items)
+        svars = [k[2] for k in ref_tmp.state_keys]
+        consts = [k[2] for k in ref_tmp.param_keys if ref_tmp.kind[k] == 'const' and k[1] == opn0]
+        if svars and consts:
+            bvp_kw = {'boundary_conditions': [f'u0_{svars[0]}', f'u1_{svars[0]} - par_zbc*par_{consts[0]}'][:max(1, len(svars))],
+                      'integral_constraints': [f'u_{svars[-1]} - par_zbc']}
+            if len(svars) < 2:
+                bvp_kw['boundary_conditions'] = [f'u1_{svars[0]} - par_zbc*par_{consts[0]}']
+            scenarios = tuple(sorted(set(scenarios) | {'bvp'}))
+            mech['bvp_exports'] = 1
     overrides = {}
     if rnd.random() < 0.5:
         overrides['NMX'] = rnd.choice([123, 4567])
@@ -141,7 +167,8 @@ def run_case(case, ctx):
         tmpl, _ = build.build_python(spec)
         try:
             f, args, names, smap = tmpl.get_run_func('vf', step_size=1e-3, backend='fortran', auto=True, vectorize=False, solver='scipy',
-                                                     float_precision='float64', file_name=fname, verbose=False, auto_constants=scenarios, **overrides)
+                                                     float_precision='float64', file_name=fname, verbose=False, auto_constants=scenarios, **overrides,
+                                                     **bvp_kw)
         except Exception as e:
             import traceback
             raise observe.Mismatch(f"loud: auto export raised {type(e).__name__}: {e} :: {traceback.format_exc()[-500:]}")
@@ -157,8 +184,12 @@ def run_case(case, ctx):
         # NOTE: the returned (frontend) names follow first use, the subroutine follows declaration order; they are matched through
         # the returned argument VALUES (unique per model) and the STPNT values, not by position.
         stp = {n: (slot, fval(v)) for slot, v, n in P['stpnt_args']}
-        if sorted(stp) != sorted(back_names):
-            raise observe.Mismatch(f"STPNT initialises {sorted(stp)} but the vector field takes {sorted(back_names)}")
+        extra = sorted(set(stp) - set(back_names))
+        if sorted(set(stp) - set(extra)) != sorted(back_names) or extra != (['zbc'] if bvp_kw else []):
+            raise observe.Mismatch(f"STPNT initialises {sorted(stp)} but the vector field takes {sorted(back_names)}"
+                                   + (' plus the boundary-condition parameter zbc' if bvp_kw else ''))
+        vf_names = list(back_names)
+        back_names = vf_names + extra          # all exported parameters (slot bookkeeping); vf_names: those the vector field takes
         slots = [stp[n][0] for n in back_names]
         mech['slots_checked'] = len(slots)
         if len(set(slots)) != len(slots):
@@ -170,8 +201,9 @@ def run_case(case, ctx):
         # forwarding list of `call vf(args(14), y, dy, args(i), ...)` vs signature
         fw = P['call'][3:]
         fw_slots = [int(re.match(r'args\((\d+)\)', a).group(1)) for a in fw]
-        if fw_slots != slots:
-            raise observe.Mismatch(f"`call vf` forwards PAR slots {fw_slots} to dummy arguments {back_names} whose STPNT slots are {slots}")
+        if fw_slots != [stp[n][0] for n in vf_names]:
+            raise observe.Mismatch(f"`call vf` forwards PAR slots {fw_slots} to dummy arguments {vf_names} whose STPNT slots are "
+                                   f"{[stp[n][0] for n in vf_names]}")
         if P['call'][0] != 'args(14)':
             raise observe.Mismatch(f"time is forwarded from {P['call'][0]}, auto-07p keeps it in PAR(14)")
         # value fingerprint: backend name -> reference key
@@ -194,7 +226,10 @@ def run_case(case, ctx):
         # declaration order per operator: slots ascend with the declaration order of the operator's constants
         for node in ref.node_order:
             for opn in ref.nodes[node]['ops']:
-                decl = [v for v, d in spec['ops'][opn]['vars'].items() if (node, opn, v) in key_of.values()]
+                # (parameters that only occur in boundary conditions / integral constraints are appended after the vector-field
+                # parameters by design; the declaration-order clause is checked for the vector field's parameters)
+                decl = [v for v, d in spec['ops'][opn]['vars'].items() if (node, opn, v) in key_of.values() and
+                        any(key_of[n] == (node, opn, v) for n in vf_names)]
                 sl = [next(stp[n][0] for n in back_names if key_of[n] == (node, opn, v)) for v in decl]
                 if sl != sorted(sl):
                     raise observe.Mismatch(f"slots of {node}/{opn} parameters {list(zip(decl, sl))} do not follow their declaration order")
@@ -251,7 +286,7 @@ def run_case(case, ctx):
             return np.array(dy, dtype=float), dfdu, dfdp
         # perturb slot by slot
         yv = np.array([rnd.gauss(0, 0.8) for _ in range(ndim)])
-        for n in [None] + back_names:
+        for n in [None] + vf_names:
             pv = par.copy()
             p = dict(p0)
             if n is not None:
@@ -278,7 +313,7 @@ def run_case(case, ctx):
                 if not np.allclose(dfdu[:, j], col, rtol=1e-5, atol=1e-6):
                     raise observe.Mismatch(f"DFDU column {j + 1} = {dfdu[:, j].tolist()} but central differences of func give {col.tolist()}")
                 mech['dfdu_entries'] = mech.get('dfdu_entries', 0) + ndim
-            for n in back_names:
+            for n in vf_names:
                 s_ = stp[n][0] - 1
                 pv1, pv2 = par.copy(), par.copy()
                 pv1[s_] += h
